@@ -31,9 +31,12 @@ theorem isok_last {s : Seg} {l : List Nat} (h : Linked s l) : IsOK s l s.last :=
 theorem _root_.GrVerif.Seg.Linked.addGlyphs {s : Seg} {l : List Nat} (h : Linked s l) (d : Int) : Linked (s.addGlyphs d) l :=
   ⟨h.nodup, h.inb, h.first, h.last, chain_congr (s := s) (s' := s.addGlyphs d) (fun _ _ => ⟨rfl, rfl⟩) h.chain⟩
 
+theorem die_J (c : Ctx) {l : List Nat} (hj : J c l) : J ((c.setIs c.seg.last).setStatus .died_early) l :=
+  ⟨hj.linked, hj.clean, isok_last hj.linked, hj.hw, hj.alloc⟩
+
 theorem die_PS (c : Ctx) (h : PS c) : OutcomeP PS (die c) := by
   obtain ⟨l, hj⟩ := h
-  exact ⟨l, ⟨hj.linked, hj.clean, isok_last hj.linked, hj.hw, hj.alloc⟩⟩
+  exact ⟨l, die_J c hj⟩
 
 /-- the `next` pointer of a stream slot leads to a stream slot or to null -/
 theorem next_in {s : Seg} {l : List Nat} (h : Linked s l) {i : Nat} (hi : i ∈ l) : IsOK s l (s.get i).next := by
@@ -43,14 +46,14 @@ theorem next_in {s : Seg} {l : List Nat} (h : Linked s l) {i : Nat} (hi : i ∈ 
   simp only [Option.or_none]
   exact isok_opt_mem (fun x hx => List.mem_append_right _ (List.mem_cons_of_mem _ (head?_mem hx)))
 
-theorem next_PS (c : Ctx) (h : PS c) : OutcomeP PS (opNext c) := by
+/-- `next` leaves the stream alone -/
+theorem next_J (c : Ctx) {l : List Nat} (hj : J c l) : OutcomeP (fun c' => J c' l) (opNext c) := by
   unfold opNext
   split
-  · exact die_PS c h
-  · obtain ⟨l, hj⟩ := h
-    split
+  · exact die_J c hj
+  · split
     · rename_i i heq
-      refine ⟨l, ⟨by simpa using hj.linked, by simpa using hj.clean, ?_, by simpa using hj.hw, by simpa using hj.alloc⟩⟩
+      refine ⟨by simpa using hj.linked, by simpa using hj.clean, ?_, by simpa using hj.hw, by simpa using hj.alloc⟩
       simp only [setMap_seg, setIs_seg, markHighpassed_seg, setMap_is, setIs_is]
       have hio := hj.isok
       rw [heq] at hio
@@ -60,19 +63,29 @@ theorem next_PS (c : Ctx) (h : PS c) : OutcomeP PS (opNext c) := by
       · cases h1
         rw [h4]
         exact isok_opt_mem (fun x hx => head?_mem hx)
-    · exact ⟨l, ⟨hj.linked, hj.clean, hj.isok, hj.hw, hj.alloc⟩⟩
+    · exact ⟨hj.linked, hj.clean, hj.isok, hj.hw, hj.alloc⟩
+
+theorem next_PS (c : Ctx) (h : PS c) : OutcomeP PS (opNext c) := by
+  obtain ⟨l, hj⟩ := h
+  exact (next_J c hj).mono (fun c' h => ⟨l, h⟩)
+
+/-- what `delete_` does: it dies, or the cursor's slot `i` leaves the stream and the cursor steps back -/
+def DelOut (c : Ctx) (l : List Nat) (c' : Ctx) : Prop :=
+  (c' = (c.setIs c.seg.last).setStatus .died_early ∧ J c' l) ∨
+  ∃ a i b sg, c.is = some i ∧ l = a ++ i :: b ∧ J c' (a ++ b) ∧ (c.seg.get i).prev = a.getLast? ∧ (c.seg.get i).next = b.head? ∧
+    c' = (((c.moveHighwater (c.seg.get i).next).withSeg sg).setIs (match (c.seg.get i).prev with | some p => some p | none => c.is)).backOnto
+      (c.seg.get i).prev
 
 /-- `delete_` -/
-theorem delete_PS (c : Ctx) (h : PS c) : OutcomeP PS (opDelete c) := by
+theorem delete_J (c : Ctx) {l : List Nat} (hj : J c l) : OutcomeP (DelOut c l) (opDelete c) := by
   unfold opDelete
   split
-  · exact die_PS c h
+  · exact .inl ⟨rfl, die_J c hj⟩
   · rename_i i heq
     simp only []
     split
-    · exact die_PS c h
+    · exact .inl ⟨rfl, die_J c hj⟩
     · rename_i hdel
-      obtain ⟨l, hj⟩ := h
       have hil : i ∈ l := by
         have hio := hj.isok
         rw [heq] at hio
@@ -108,10 +121,10 @@ theorem delete_PS (c : Ctx) (h : PS c) : OutcomeP PS (opDelete c) := by
         rcases List.mem_append.mp hx with hx | hx
         · exact List.mem_append_left _ hx
         · exact List.mem_append_right _ (List.mem_cons_of_mem _ hx)
-      refine ⟨a ++ b, ⟨?_, ?_, ?_, ?_, ?_⟩⟩
-      · simp only [setIs_seg, withSeg_seg, moveHighwater_seg]
+      refine .inr ⟨a, i, b, _, heq, rfl, ⟨?_, ?_, ?_, ?_, ?_⟩, hmid.1, hmid.2.1, rfl⟩
+      · simp only [backOnto_seg, setIs_seg, withSeg_seg, moveHighwater_seg]
         exact (l1.same ssd).addGlyphs _
-      · simp only [setIs_seg, withSeg_seg, moveHighwater_seg]
+      · simp only [backOnto_seg, setIs_seg, withSeg_seg, moveHighwater_seg]
         have hc := hj.clean
         refine ⟨fun j hj' => ?_, ?_, ?_, ?_, ?_, ?_⟩
         · simp only [addGlyphs_get]
@@ -133,7 +146,7 @@ theorem delete_PS (c : Ctx) (h : PS c) : OutcomeP PS (opDelete c) := by
         · simp only [addGlyphs_num]; rw [ssd.numGlyphs, t1.numGlyphs]
           rw [upd_numGlyphs, hc.count]
           simp only [List.length_append, List.length_cons]; omega
-      · simp only [setIs_seg, withSeg_seg, moveHighwater_seg, setIs_is, moveHighwater_is]
+      · simp only [backOnto_seg, backOnto_is, setIs_seg, withSeg_seg, moveHighwater_seg, setIs_is, moveHighwater_is]
         rw [hmid.1]
         rcases List.eq_nil_or_concat a with ha | ⟨a', x, ha⟩
         · subst ha
@@ -149,7 +162,7 @@ theorem delete_PS (c : Ctx) (h : PS c) : OutcomeP PS (opDelete c) := by
           rw [getLast?_concat']
           exact .inr (.inl ⟨x, rfl, by simp⟩)
       · -- the high-water mark moves on when its own slot is deleted, and otherwise was not the deleted slot
-        simp only [setIs_highwater, withSeg_highwater]
+        simp only [backOnto_highwater, setIs_highwater, withSeg_highwater]
         rw [moveHighwater_highwater]
         intro x hx
         split at hx
@@ -165,7 +178,7 @@ theorem delete_PS (c : Ctx) (h : PS c) : OutcomeP PS (opDelete c) := by
             · exact absurd h2 hxi
             · exact List.mem_append_right _ h2
       · -- every other slot in use that is live was in the stream before and still is; the deleted one is marked
-        simp only [setIs_seg, withSeg_seg, moveHighwater_seg]
+        simp only [backOnto_seg, setIs_seg, withSeg_seg, moveHighwater_seg]
         intro j h1 h2 h3 h4
         simp only [addGlyphs_size, addGlyphs_free, addGlyphs_get] at h1 h2 h3 h4
         rw [ssd.size, t1.size] at h1; rw [ssd.free, t1.free] at h2
@@ -180,19 +193,26 @@ theorem delete_PS (c : Ctx) (h : PS c) : OutcomeP PS (opDelete c) := by
           · exact absurd hx hji
           · exact List.mem_append_right _ hx
 
+theorem delete_PS (c : Ctx) (h : PS c) : OutcomeP PS (opDelete c) := by
+  obtain ⟨l, hj⟩ := h
+  refine (delete_J c hj).mono (fun c' h => ?_)
+  rcases h with ⟨_, h⟩ | ⟨a, i, b, sg, _, _, h, _⟩
+  · exact ⟨l, h⟩
+  · exact ⟨a ++ b, h⟩
+
 /-- where `insert` puts the new slot: in front of the current slot, of the first slot when the current one is the
 deleted former first slot, or at the end -/
 theorem skip_split {s : Seg} {l : List Nat} {is : Option Nat} (hc : Clean s l) (hi : IsOK s l is) (fuel : Nat) :
-    ∃ a b, l = a ++ b ∧ skipDeleted s (fuel + 2) is = b.head? := by
+    ∃ a b, l = a ++ b ∧ skipDeleted s (fuel + 2) is = b.head? ∧ (∀ x, is = some x → x ∈ l → b.head? = some x) ∧ (is = none → b = []) := by
   rcases hi with h0 | ⟨i, h1, h2⟩ | ⟨d, h1, h2, h3, h4, h5, h6⟩
   · subst h0
-    exact ⟨l, [], by simp, by simp [skipDeleted]⟩
+    exact ⟨l, [], by simp, by simp [skipDeleted], fun x hx => (by cases hx), fun _ => rfl⟩
   · subst h1
     obtain ⟨a, b, rfl⟩ := List.append_of_mem h2
-    refine ⟨a, i :: b, rfl, ?_⟩
+    refine ⟨a, i :: b, rfl, ?_, fun x hx _ => (by cases hx; rfl), fun hh => (by cases hh)⟩
     simp [skipDeleted, (hc.live i h2).1]
   · subst h1
-    refine ⟨[], l, by simp, ?_⟩
+    refine ⟨[], l, by simp, ?_, fun x hx hxl => (by cases hx; exact absurd hxl h2), fun hh => (by cases hh)⟩
     simp only [skipDeleted, h3, if_true, h4]
     cases hq : l.head? with
     | none => rfl
@@ -200,20 +220,28 @@ theorem skip_split {s : Seg} {l : List Nat} {is : Option Nat} (hc : Clean s l) (
       have := (hc.live x (head?_mem hq)).1
       simp [skipDeleted, this]
 
-theorem insert_PS (c : Ctx) (h : PS c) : OutcomeP PS (opInsert c) := by
+/-- what `insert` does: it dies (budget used up, or no slot), or a new slot `n` enters the stream in front of the cursor's slot
+(at the end when the cursor is null) and becomes the cursor -/
+def InsOut (c : Ctx) (l : List Nat) (c' : Ctx) : Prop :=
+  (c' = (((c.setMaxSize (c.maxSize - 1)).setIs c.seg.last).setStatus .died_early) ∧ J c' l) ∨
+  ∃ a b n sg mp, l = a ++ b ∧ n ∉ l ∧ J c' (a ++ n :: b) ∧ (∀ x, c.is = some x → x ∈ l → b.head? = some x) ∧ (c.is = none → b = []) ∧
+    ¬ (c.maxSize - 1 ≤ 0) ∧
+    c' = ((((c.setMaxSize (c.maxSize - 1)).markHighpassed false).withSeg sg).setIs (some n)).setMap mp
+
+theorem insert_J (c : Ctx) {l : List Nat} (hj : J c l) : OutcomeP (InsOut c l) (opInsert c) := by
   unfold opInsert
   simp only []
-  have h' : PS (c.setMaxSize (c.maxSize - 1)) := by obtain ⟨l, hj⟩ := h; exact ⟨l, ⟨hj.linked, hj.clean, hj.isok, hj.hw, hj.alloc⟩⟩
+  have h' : J (c.setMaxSize (c.maxSize - 1)) l := ⟨hj.linked, hj.clean, hj.isok, hj.hw, hj.alloc⟩
   split
-  · exact die_PS _ h'
-  · split
-    · exact die_PS _ h'
+  · exact .inl ⟨rfl, die_J _ h'⟩
+  · rename_i hbud
+    split
+    · exact .inl ⟨rfl, die_J _ h'⟩
     · rename_i k seg heq
-      obtain ⟨l, hj⟩ := h
       simp only [setMaxSize_seg] at heq
       obtain ⟨l1, i1, hkl, hks, hkf, hkp, hkd, hkc, c1⟩ := newSlot_spec hj.linked hj.clean hj.isok heq
       simp only [setMaxSize_is]
-      obtain ⟨a, b, hab, hsk⟩ := skip_split c1 i1 (seg.slots.size - 1)
+      obtain ⟨a, b, hab, hsk, hsx, hsn⟩ := skip_split c1 i1 (seg.slots.size - 1)
       have hfuel : seg.slots.size - 1 + 2 = seg.slots.size + 1 := by omega
       rw [hfuel] at hsk
       rw [hsk]
@@ -223,7 +251,7 @@ theorem insert_PS (c : Ctx) (h : PS c) : OutcomeP PS (opInsert c) := by
         rcases List.mem_append.mp hx with hx | hx
         · exact List.mem_append_left _ hx
         · exact List.mem_append_right _ (List.mem_cons_of_mem _ hx)
-      refine ⟨a ++ k :: b, ⟨?_, ?_, ?_, ?_, ?_⟩⟩
+      refine .inr ⟨a, b, k, _, _, rfl, hkl, ⟨?_, ?_, ?_, ?_, ?_⟩, hsx, hsn, hbud, rfl⟩
       · simp only [setMap_seg, setIs_seg, withSeg_seg]
         exact l2.addGlyphs _
       · simp only [setMap_seg, setIs_seg, withSeg_seg]
@@ -269,5 +297,12 @@ theorem insert_PS (c : Ctx) (h : PS c) : OutcomeP PS (opInsert c) := by
         rcases newSlot_alloc hj.alloc heq j h1 h2 h3 h4 with hx | hx
         · exact hsub j hx
         · rw [hx]; simp
+
+theorem insert_PS (c : Ctx) (h : PS c) : OutcomeP PS (opInsert c) := by
+  obtain ⟨l, hj⟩ := h
+  refine (insert_J c hj).mono (fun c' h => ?_)
+  rcases h with ⟨_, h⟩ | ⟨a, b, n, sg, mp, _, _, h, _⟩
+  · exact ⟨l, h⟩
+  · exact ⟨a ++ n :: b, h⟩
 
 end GrVerif.Action
